@@ -181,7 +181,7 @@ def run_job(job, workroot, ctx):
         root = compz.bucket(msg, BUCKETS) or compz.keyword_root_cause(err, wit_text, compz.RUST_KEYWORDS)
         if not root and job["source"] == "random" and code in TEMP_CODES and compz.GENERATOR_TEMPORARIES.search(wit_text):
             root = "maybe-generator-temporary-collision:" + code
-        return {"status": "violation", "stage": "rustc", "sig": compz.signature(job, "rust:rustc:", root or "%s:%s" % (code or "error", compz.normalise_rust(msg))),
+        return {"status": "violation", "stage": "rustc", "sig": compz.signature(job, "rust:rustc:", root or "%s:%s" % (code or "error", compz.normalise_rust(msg)), closed=tuple(b for _, b in BUCKETS)),
                 "what": "%s: error%s: %s" % (what, "[%s]" % code if code else "", msg), "detail": err[:2500]}
 
     # native type-check, as crates/test/src/rust.rs `verify` (without -Dwarnings)
@@ -290,6 +290,9 @@ def run(tier, seed, replay):
                         rep.samples.append({"job": j["id"], "args": ["--stubs"] + j["args"], "world": r["world"], "wasm32_built": r["wasm"],
                                             "component_import_funcs": r["imports"], "component_export_funcs": r["exports"]})
                 elif r["status"] == "violation":
+                    tally = rep.extra.setdefault("violation_tally", {})
+                    k = "%s | %s" % (r["sig"], compz.normalise(r["what"].split(": ", 1)[-1]))
+                    tally[k] = tally.get(k, 0) + 1
                     rep.add_eval(vcommon.stable_hash([compz.read_wit(j["wit"]), j["variant"]]))
                     rep.violation(r["sig"], "%s [job %s args --stubs %s]" % (r["what"], j["id"], " ".join(j["args"])),
                                   compz.job_replay(j, {"stage": r.get("stage"), "detail": r.get("detail", "")}))
